@@ -135,6 +135,17 @@ def run_rules(ctx, chk):
                     n_err_sites += 1
     chk.ob('C03.G3', 'exits:ok-or-err-only', n_ok_sites >= 2 and n_err_sites >= 1, b.where(0),
            '%d Ok exit sites, %d Err exit sites' % (n_ok_sites, n_err_sites), nontrivial=False)
+    from .. import core as _core
+    if not isinstance(ctx, _core.FixtureCtx) and not getattr(chk, '_nested', False):
+        from . import C11
+        sub = type(chk)('C03', LEVEL, chk.tier)
+        sub._nested = True
+        sub._is_control = True
+        C11.run_rules(ctx, sub)
+        for o in sub.obs:
+            if o['rule'] in ('C11.P1', 'C11.P2', 'C11.P3') and o['nontrivial']:
+                chk.ob('C03.G5', '%s:%s' % (o['rule'], o['key']), o['ok'], o['where'],
+                       'a completed publication must leave an even, non-zero, changed generation or readers keep serving their cache: ' + o['detail'])
     for need in ('version==0', 'generation==0', 'generation==cached', 'generation odd'):
         chk.ob('C03.G1', 'reason-present:%s' % need, need in reasons_seen, r.body.where(0),
                'an early exit for "%s" %s' % (need, 'exists' if need in reasons_seen else 'is MISSING (the reader would wait on / mis-handle this state)'),
